@@ -46,9 +46,9 @@ LEVEL_NOTE = (
     "Gql/Text/Lexer.lean and its theorems are shared with C09 (Gql/Proofs/LexerBasic.lean); the T1 extractor; the "
     "harness. Not proved here: which exceptions validate_schema / validate / execute can raise (C20 / C12 / C02+C13) "
     "- they are hypotheses of response_wf and are observed on the implementation by the pipeline oracle "
-    "(graphql_sync never raises on any generated case). The F7 hardening of located_error is proposed as "
-    "repo_patches/F7_located_error_hostile_attrs.diff; until it is committed the hostile-attribute cases are reported "
-    "as the known finding located_error:hostile-attribute-reads."
+    "(graphql_sync never raises on any generated case). The F7 hardening of located_error "
+    "(repo_patches/F7_located_error_hostile_attrs.diff) is committed as fix 5f68384; the hostile-attribute cases are checked "
+    "like every other case and the entry located_error:hostile-attribute-reads is listed as fixed."
 )
 TECHNIQUE = (
     "Lean 4 proof about crash-faithful fuel-indexed executable models (compositional Good/GoodC/Agree predicates with a "
